@@ -116,6 +116,11 @@ func main() {
 		}
 	}()
 
+	var detDump *os.File
+	if p := os.Getenv("VERIF_DET_DUMP"); p != "" {
+		detDump, _ = os.Create(p)
+		defer detDump.Close()
+	}
 	for i := 0; i < *evals; i++ {
 		if *secs > 0 && time.Since(start).Seconds() > *secs {
 			break
@@ -142,6 +147,9 @@ func main() {
 		cls := ""
 		if o.V != nil {
 			cls = o.V.Oracle + "/" + o.V.Class
+		}
+		if detDump != nil {
+			fmt.Fprintf(detDump, "%d sig=%x steps=%d runs=%d cls=%s\n", i, o.Sig, o.Steps, o.Runs, cls)
 		}
 		det = mix(det, o.Sig)
 		det = mix(det, uint64(o.Steps))
